@@ -31,6 +31,8 @@ ASSUMPTIONS = [
     "(rounding of the re-spelled numbers; the eigen-decomposition of the merged inertia)",
     "fusestatic models carry no refsite: the rotational site/refsite length depends on how the orientation is split between "
     "body and site (known finding C27-refsite-rotation-quaternion-order), which fusing changes",
+    "pairs whose joint-space inertia is singular at qpos0 (dof_invweight0 non-finite, negative or >1e10 in either model) are "
+    "skipped and counted: the generated model is degenerate and its derived constants are rounding noise",
     "a trajectory is abandoned (counted unstable_skipped) when either model reaches |qacc|>1e7 or |qvel|>1e4: the generated "
     "system is then numerically unstable for the chosen integrator/timestep and rounding differences are amplified without bound",
     "trajectories use <flag constraint='disable'/> (no limits, friction loss, equality or contact forces): the comparison is "
@@ -620,6 +622,19 @@ def worker(c):
     if kind == "discardvisual":
         napp = mA.n("ngeom") - mB.n("ngeom")
         pair["counts"] = {"discardvisual:geoms-removed": napp} if napp else {}
+    degenerate = False
+    for m_ in (mA, mB):
+        w = m_["dof_invweight0"]
+        if w.size and (not np.all(np.isfinite(w)) or np.abs(w).max() > 1e10 or w.min() < 0):
+            degenerate = True
+    if degenerate:
+        # singular joint-space inertia at qpos0 (e.g. a hinge through a point mass): invweight0 is NaN or +-1e16 depending on
+        # rounding, and the dynamics are undefined; not a statement about the rewrite
+        P.count("singular_inertia_skipped")
+        P.case(nontrivial=False)
+        mA.free()
+        mB.free()
+        return P.result()
     tol = pair["tol"]
     label = pair.get("label", kind)
     ncmp = 0
